@@ -291,7 +291,8 @@ func (s *muxerStream) hasPart(segmentID uint64, partID uint64) bool {
 		}
 	}
 
-	if segmentID == s.nextSegmentID {
+	// the open segment is missing after a failed rotation
+	if segmentID == s.nextSegmentID && s.nextSegment != nil {
 		return partID < uint64(len(s.nextSegment.(*muxerSegmentFMP4).parts))
 	}
 
@@ -539,17 +540,20 @@ func (s *muxerStream) generateMediaPlaylistFMP4(
 	}
 
 	if s.variant == MuxerVariantLowLatency {
-		for _, part := range s.nextSegment.(*muxerSegmentFMP4).parts {
-			u := part.path
-			if rawQuery != "" {
-				u += "?" + rawQuery
-			}
+		// the open segment is missing after a failed rotation
+		if s.nextSegment != nil {
+			for _, part := range s.nextSegment.(*muxerSegmentFMP4).parts {
+				u := part.path
+				if rawQuery != "" {
+					u += "?" + rawQuery
+				}
 
-			pl.Parts = append(pl.Parts, &playlist.MediaPart{
-				Duration:    part.getDuration(),
-				URI:         u,
-				Independent: part.isIndependent,
-			})
+				pl.Parts = append(pl.Parts, &playlist.MediaPart{
+					Duration:    part.getDuration(),
+					URI:         u,
+					Independent: part.isIndependent,
+				})
+			}
 		}
 
 		// preload hint must always be present
